@@ -512,6 +512,29 @@ func main() {
 			})
 		}
 		emitNat("searchK", sk, oks)
+		// the radius a K-nearest search starts with, and the pruning test of the traversal
+		initRad, okr := "", false
+		if fs := method("collection.go", "Collection", "Search"); fs != nil {
+			ast.Inspect(fs.Body, func(x ast.Node) bool {
+				if as, ok := x.(*ast.AssignStmt); ok && as.Tok == token.DEFINE && len(as.Lhs) == 1 && len(as.Rhs) == 1 {
+					if id, ok := as.Lhs[0].(*ast.Ident); ok && id.Name == "radius" {
+						initRad, okr = src(as.Rhs[0]), true
+					}
+				}
+				return true
+			})
+		}
+		emitStr("lshInitialRadius", initRad, okr)
+		prune, okp2 := "", false
+		if fs := method("lshtree.go", "lshTree", "search"); fs != nil {
+			ast.Inspect(fs.Body, func(x ast.Node) bool {
+				if is, ok := x.(*ast.IfStmt); ok && strings.Contains(src(is.Cond), "item.priority") && !okp2 {
+					prune, okp2 = src(is.Cond), true
+				}
+				return true
+			})
+		}
+		emitStr("lshPruneCondition", prune, okp2)
 		// signal enum
 		var sig []string
 		for _, d := range files["collection.go"].Decls {
